@@ -27,7 +27,7 @@ git -C /repo apply $OUT/patch.diff
 cp /verif/evidence/$PID.json $OUT/evidence_with_patch.json 2>/dev/null
 git -C /repo checkout -- .
 cp /var/tmp/evidence_keep_$PID.json /verif/evidence/$PID.json 2>/dev/null
-rm -rf /verif/replay/$PID
+mkdir -p $OUT/replay; cp /verif/replay/$PID/* $OUT/replay/ 2>/dev/null; rm -rf /verif/replay/$PID
 ( cd /verif && /venv/bin/python -m py.translate.run /repo > /dev/null 2>&1 )
 VIOL=$(grep -m1 VIOLATION $OUT/check.log)
 echo "check: rc=$RC_CHECK $VIOL"
